@@ -370,9 +370,41 @@ def run_corpus(ctx):
                             input_text=o["a"])
 
 
+def run_rhythm_comments(ctx, rng, n):
+    """comments at the item boundaries of a Rhythm{..} block (plain words only: a parenthesis inside such a comment is the known
+    finding C18-paren-in-rhythm-comment): same bytes as the block without them"""
+    lines, pairs = [], []
+    for _ in range(n):
+        items = [rng.choice("bshmcoML") + rng.choice(["", "", "4", "8", "16"]) for _ in range(rng.randrange(2, 9))]
+        a, b = "CH(10) l8 Rhythm{", "CH(10) l8 Rhythm{"
+        for it in items:
+            k = rng.random()
+            sep = rng.choice([" ", "\n", "\n  ", " | "])
+            if k < 0.3:
+                com = " // %s\n" % rng.choice(["kick", "snare x", "hat hat", "x1"])
+            elif k < 0.45:
+                com = " /* %s */ " % rng.choice(["fill", "a b", "x\ny"])
+            else:
+                com = ""
+            a += sep + it + com
+            b += sep + it + ("\n" if com.startswith(" //") else " ")
+        a += " } c"
+        b += " } c"
+        pairs.append((a, b))
+        lines += ["compile\t%s\t0" % vlib.enc_text(a), "compile\t%s\t0" % vlib.enc_text(b)]
+    got = ctx.impl(lines, stall=15)
+    for i, (a, b) in enumerate(pairs):
+        ga, gb = bytes_of(got[2 * i]), bytes_of(got[2 * i + 1])
+        ctx.count("rhythm_comments", a)
+        if ga != gb:
+            ctx.oracle_fail("comments inside a Rhythm block change the music", "compile\t%s" % vlib.enc_text(a), "%r -> %s" % (a, ga[-200:]), "%r -> %s" % (b, gb[-200:]),
+                            input_text=a)
+
+
 def run(ctx):
     rng = ctx.rng
     run_corpus(ctx)
+    run_rhythm_comments(ctx, rng, 120 if ctx.tier == "quick" else 4000)
     n = 700 if ctx.tier == "quick" else 12000
     progs = []
     for i in range(n):
